@@ -848,7 +848,7 @@ def quat2unit(input: LieTensor, eps=1e-12) -> LieTensor:
         :obj:`LieTensor`: the output LieTensor.
     '''
     if isinstance(input, LieTensor) and (input.ltype in liegroup):
-        data = input.tensor()
+        data = input.tensor().clone()
         if input.ltype in [SO3_type, RxSO3_type]:
             data[..., :4] = normalize(data[..., :4], p=2, dim=-1, eps=eps)
         elif input.ltype in [SE3_type, Sim3_type]:
